@@ -1219,8 +1219,13 @@ class Interp:
             tn = A.dotted(args[1])
             names = [A.dotted(x) for x in args[1].elts] if isinstance(args[1], ast.Tuple) else [tn]
             pyt = {"tuple": tuple, "list": list, "dict": dict, "str": str, "bool": bool, "set": set}
-            if all(n in pyt for n in names) and isinstance(v, (tuple, list, dict, str, bool, set, Poly)):
+            pyt.update({"int": int, "float": float})
+            if all(n in pyt for n in names) and v is None:
+                return False
+            if all(n in pyt for n in names) and isinstance(v, (tuple, list, dict, str, bool, set)):
                 return any(isinstance(v, pyt[n]) for n in names)
+            if all(n in pyt for n in names) and isinstance(v, Poly) and not ({"int", "float"} & set(names)):
+                return False
             raise Undecided("isinstance")
         if name == "filter" and isinstance(f, ast.Name) and len(args) == 2:
             pred, seq = ev(args[0]), ev(args[1])
